@@ -276,6 +276,18 @@ def replay_path(args):
                     break
                 if r1[0] != "item":
                     break
+    if not out and "C04" in props and any(o == "gb" for o, _ in history_of(path)):
+        # the newest group closed first, then the groupby: the source is closed all the same
+        fresh = GBSys(data, keyfl)
+        for op, g, *_ in (e["a"] for e in path):
+            fresh.op(op, g)
+        if fresh.groups:
+            Task(fresh.groups[-1].aclose(), fresh.rec.acct).run()
+            err = fresh.close()
+            if err is not None:
+                bad("C04", "close-raises+after-closing-a-group", len(path), {"expected": None, "observed": repr(err)})
+            elif not fresh.src.released:
+                bad("C04", "unreleased-source-after-close+after-closing-a-group", len(path), {"expected": "closed", "observed": fresh.src.state})
     if not out and "C04" in props:
         # on a fresh replay of the same history (the drain above has used the first one up): closed where it stands
         for noclose in (False, True):
